@@ -111,6 +111,10 @@ def _len_term(t):
         return ("add", _len_term(t.a[0].a[1]), _len_term(t.a[0].a[2]))
     if t.op == "bin" and t.a[0] in ("Add", "AddUnchecked"):
         return ("add", _len_term(t.a[1]), _len_term(t.a[2]))
+    if t.op == "field" and t.a[1] == "0" and t.a[0].op == "bin" and t.a[0].a[0] in ("SubWithOverflow",):
+        return ("sub", _len_term(t.a[0].a[1]), _len_term(t.a[0].a[2]))
+    if t.op == "bin" and t.a[0] in ("Sub", "SubUnchecked"):
+        return ("sub", _len_term(t.a[1]), _len_term(t.a[2]))
     return ("t", strip_sites(t))
 
 
@@ -191,7 +195,20 @@ def nf(ev, t, depth=0):
             c = _const_int(args[2])
             if k is not None and c is not None:
                 # resize may also truncate; only a padding under a `len < k` guard is a pure pad.
+                if ev is not None and len(t.a) > 3 and _guarded_short(ev, t.a[3], selfv, k):
+                    return nf(ev, selfv, depth + 1) + [("padg", k, c)]
                 return nf(ev, selfv, depth + 1) + [("resize", k, c)]
+            if c is not None:
+                base = nf(ev, selfv, depth + 1)
+                kt = peel(args[1])
+                # resize(max(K, <current length>), c): pads to at least K and never truncates
+                if kt.op == "call" and cname(kt) in ("Ord::max", "core::max", "cmp::max", "std::max") and len(kt.a[1]) == 2:
+                    for x, y in ((kt.a[1][0], kt.a[1][1]), (kt.a[1][1], kt.a[1][0])):
+                        K = _const_int(x)
+                        if K is not None and _len_equiv(_len_of_value(y, selfv), _total_len(base)):
+                            return base + [("pad", K, c)]
+                # any other computed target may cut bytes off the end
+                return base + [("resize?", strip_sites(kt), c)]
         if n == "slice::<impl [T]>::copy_from_slice" and idx == 0 and len(args) == 2:
             # tiling: buffer[..a] / buffer[a..] / whole
             dst = peel(args[0])
@@ -220,6 +237,10 @@ def nf(ev, t, depth=0):
         alts = [tuple(nf(ev, x, depth + 1)) for x in t.a[0]]
         if all(a == alts[0] for a in alts):
             return list(alts[0])
+        # `if v.len() < K { v.resize(K, c) }`: {S, S ‖ guarded-pad(K)} is S ‖ PadTo(K)
+        ua = sorted(set(alts), key=len)
+        if len(ua) == 2 and ua[1][:-1] == ua[0] and ua[1][-1][0] == "padg":
+            return list(ua[0]) + [("pad", ua[1][-1][1], ua[1][-1][2])]
         return [("phi", tuple(sorted(set(alts), key=str)))]
     if op == "agg" and t.a[0][0] == "array":
         out = []
@@ -233,6 +254,31 @@ def nf(ev, t, depth=0):
             return [("v", v)]
         return [("v", strip_sites(t))]
     return [("v", strip_sites(t))]
+
+
+def _guarded_short(ev, where, selfv, k):
+    """Is the block `where` = (fn key, bb) reached only when len(selfv) < k' for some k' <= k ?"""
+    from . import guards as G
+
+    if not isinstance(where, tuple) or len(where) != 2 or where[0] != ev.fn.key:
+        return False
+    want = strip_sites(peel(selfv))
+    for atom, pol in G.path_literals(ev, where[1], None):
+        if atom[0] != "atom" or atom[1] != "cmp":
+            continue
+        op, a, b = atom[2], atom[3], atom[4]
+        if not pol:
+            op = {"Ge": "Lt", "Gt": "Le", "Lt": "Ge", "Le": "Gt", "Eq": "Ne", "Ne": "Eq"}[op]
+        a_, b_ = peel(a), peel(b)
+        def is_len(x):
+            return x.op == "call" and cname(x) in ("Vec::<T, A>::len", "slice::<impl [T]>::len") and len(x.a[1]) == 1 and strip_sites(peel(x.a[1][0])) == want
+        if op == "Lt" and is_len(a_) and _const_int(b_) is not None and _const_int(b_) <= k:
+            return True
+        if op == "Gt" and is_len(b_) and _const_int(a_) is not None and _const_int(a_) <= k:
+            return True
+        if op == "Le" and is_len(a_) and _const_int(b_) is not None and _const_int(b_) < k:
+            return True
+    return False
 
 
 def _pad_bound(ev, hdr, loopterm):
@@ -266,34 +312,111 @@ def _range_kind(rng):
     return None
 
 
+def _lin(n):
+    """Linear form (const, {atom: coef}) of a length term; None if not linear."""
+    if n is None:
+        return None
+    k = n[0]
+    if k == "c":
+        return (n[1], {})
+    if k == "len":
+        return (0, {("len", n[1]): 1})
+    if k == "t":
+        return (0, {("t", n[1]): 1})
+    if k == "lin":
+        return (n[1], dict(n[2]))
+    if k in ("add", "sub"):
+        a, b = _lin(n[1]), _lin(n[2])
+        if a is None or b is None:
+            return None
+        sg = 1 if k == "add" else -1
+        d = dict(a[1])
+        for key, co in b[1].items():
+            d[key] = d.get(key, 0) + sg * co
+            if d[key] == 0:
+                del d[key]
+        return (a[0] + sg * b[0], d)
+    return None
+
+
+def _unlin(l):
+    c, d = l
+    if not d:
+        return ("c", c)
+    if c == 0 and len(d) == 1:
+        (key, co), = d.items()
+        if co == 1:
+            return (key[0], key[1])
+    return ("lin", c, tuple(sorted(d.items(), key=str)))
+
+
+def _lin_eq(a, b):
+    la, lb = _lin(a), _lin(b)
+    return la is not None and lb is not None and la == lb
+
+
+def _lin_sub(a, b):
+    la, lb = _lin(a), _lin(b)
+    if la is None or lb is None:
+        return None
+    return _lin(("sub", _unlin(la), _unlin(lb)))
+
+
+def _zseg(l):
+    """Zero region of linear length l: [] if provably empty, None if provably negative, else one segment."""
+    if l is None:
+        return None
+    if not l[1]:
+        if l[0] == 0:
+            return []
+        if l[0] < 0:
+            return None
+    return [("z", _unlin(l))]
+
+
 def _tile(buf, rng, src, orig):
+    """copy_from_slice of `src` into buf[rng] where buf is  head ‖ zeros(m)  (head possibly empty): lengths are
+    compared as linear forms over len(x) atoms, so `vec![0; 8 + n]`, `[0u8; 104]`, `[..n]`, `[n..]`, `[n..n+8]` all tile."""
     rk = _range_kind(rng)
     srclen = _total_len(src)
+    unk = [("?", strip_sites(orig))]
     if rk is None or srclen is None:
-        return [("?", strip_sites(orig))]
+        return unk
     if rk[0] == "full":
         return _tile_whole(buf, src, orig)
+    if not buf or buf[-1][0] != "z":
+        return unk
+    head, m = buf[:-1], buf[-1][1]
+    hl = _total_len(head)
+    if hl is None:
+        return unk
     if rk[0] == "to":
-        a = rk[1]
-        # buffer = zeros(n), n = a + b (either order), |src| = a  ->  src ++ zeros(b)
-        if len(buf) == 1 and buf[0][0] == "z":
-            parts = _split_add(buf[0][1])
-            if parts and a == srclen:
-                if parts[0] == a:
-                    return src + [("z", parts[1])]
-                if parts[1] == a:
-                    return src + [("z", parts[0])]
-        return [("?", strip_sites(orig))]
+        # dst = buf[..a]: must start in the zero region's beginning, i.e. head empty
+        if head or not _lin_eq(rk[1], srclen):
+            return unk
+        rest = _zseg(_lin_sub(m, srclen))
+        return unk if rest is None else src + rest
     if rk[0] == "from":
-        a = rk[1]
-        # buffer = X ++ zeros(b) with |X| = a and |src| = b -> X ++ src
-        if buf and buf[-1][0] == "z":
-            head = buf[:-1]
-            hl = _total_len(head)
-            if hl is not None and hl == a and buf[-1][1] == srclen:
-                return head + src
-        return [("?", strip_sites(orig))]
-    return [("?", strip_sites(orig))]
+        # dst = buf[a..]: everything after a, so |src| must be the whole zero region
+        if not _lin_eq(rk[1], hl) or not _lin_eq(m, srclen):
+            return unk
+        return head + src
+    if rk[0] == "range":
+        a, b = rk[1], rk[2]
+        if not _lin_eq(_unlin(_lin_sub(b, a)) if _lin_sub(b, a) is not None else None, srclen):
+            return unk
+        if _lin_eq(a, hl):
+            rest = _zseg(_lin_sub(m, srclen))
+            return unk if rest is None else head + src + rest
+        if not head:
+            # into the middle of a zero buffer
+            pre = _zseg(_lin(a))
+            rest = _zseg(_lin_sub(_unlin(_lin_sub(m, a)) if _lin_sub(m, a) is not None else None, srclen))
+            if pre is None or rest is None:
+                return unk
+            return pre + src + rest
+        return unk
+    return unk
 
 
 def _tile_whole(buf, src, orig):
@@ -302,6 +425,40 @@ def _tile_whole(buf, src, orig):
     if bl is not None and sl is not None and bl == sl:
         return src
     return [("copy", tuple(buf), tuple(src))]
+
+
+def _flat_len(n, atoms, const):
+    if n is None:
+        return False
+    if n[0] == "c":
+        const[0] += n[1]
+    elif n[0] == "add":
+        return _flat_len(n[1], atoms, const) and _flat_len(n[2], atoms, const)
+    elif n[0] == "len":
+        atoms.append(n[1])
+    else:
+        return False
+    return True
+
+
+def _len_equiv(a, b):
+    """Two length terms denote the same number (sums compared as multisets)."""
+    if a is None or b is None:
+        return False
+    if a == ("self",) or b == ("self",):
+        return True
+    aa, ac, ba, bc = [], [0], [], [0]
+    if not (_flat_len(a, aa, ac) and _flat_len(b, ba, bc)):
+        return False
+    return ac[0] == bc[0] and sorted(map(id, aa)) == sorted(map(id, ba))
+
+
+def _len_of_value(t, selfv):
+    """Length term of `t`; `len(selfv)` itself is expanded to the total length of what selfv holds."""
+    t = peel(t)
+    if t.op == "call" and cname(t) in ("Vec::<T, A>::len", "slice::<impl [T]>::len") and len(t.a[1]) == 1 and peel(t.a[1][0]) is peel(selfv):
+        return _total_len(nf(None, selfv, 0)) if False else ("self",)
+    return _len_term(t)
 
 
 def _total_len(segs):
@@ -338,6 +495,10 @@ def show_nf(segs, d=5):
             out.append("PadTo(%d,0x%02x)" % (s[1], s[2]))
         elif k == "resize":
             out.append("Resize(%d,0x%02x)" % (s[1], s[2]))
+        elif k == "resize?":
+            out.append("Resize(%s,0x%02x)" % (show(s[1], 3), s[2]))
+        elif k == "padg":
+            out.append("PadTo(%d,0x%02x)[if shorter]" % (s[1], s[2]))
         elif k == "rev":
             out.append("rev(%s)" % show_nf(list(s[1]), d))
         elif k == "?":
@@ -358,12 +519,39 @@ def _show_len(n):
         return "|%s|" % show(n[1], 3)
     if n[0] == "add":
         return "%s+%s" % (_show_len(n[1]), _show_len(n[2]))
+    if n[0] == "sub":
+        return "%s-%s" % (_show_len(n[1]), _show_len(n[2]))
+    if n[0] == "lin":
+        parts = [str(n[1])] if n[1] else []
+        for (kind, t), co in n[2]:
+            parts.append("%s%s" % ("" if co == 1 else ("-" if co == -1 else "%d*" % co), "|%s|" % show(t, 3) if kind == "len" else show(t, 3)))
+        return "+".join(parts).replace("+-", "-")
     return show(n[1], 3)
+
+
+TRUNCATING = ("Vec::<T, A>::truncate", "Vec::<T, A>::resize", "Vec::<T, A>::drain", "Vec::<T, A>::pop", "Vec::<T, A>::split_off", "Vec::<T, A>::clear", "Vec::<T, A>::set_len", "Vec::<T, A>::retain", "Vec::<T, A>::dedup", "Vec::<T, A>::remove", "Vec::<T, A>::swap_remove")
+
+
+def may_truncate(segs):
+    """Does the construction contain a step that can remove bytes (a resize to a computed length that is not provably
+    >= the current length, truncate/drain/pop/..)?  Such a step in a framed payload loses data for some length."""
+    for s in segs:
+        if s[0] in ("resize?", "resize"):
+            return True
+        if s[0] == "?":
+            for x in subterms(s[1]):
+                if x.op == "mutcall" and cname(x) in TRUNCATING:
+                    return True
+        if s[0] == "rev" and may_truncate(list(s[1])):
+            return True
+        if s[0] == "phi" and any(may_truncate(list(a)) for a in s[1]):
+            return True
+    return False
 
 
 def is_strong(segs):
     for s in segs:
-        if s[0] in ("?", "phi", "copy"):
+        if s[0] in ("?", "phi", "copy", "resize?"):
             return False
         if s[0] == "rev" and not is_strong(list(s[1])):
             return False
